@@ -740,8 +740,14 @@ def make_shims(world):
             p = bool(p.elems[0])
         return true_fun(*operands) if p else false_fun(*operands)
 
+    def lax_map(f, xs, batch_size=None):
+        # jax.lax.map(f, xs) applies f to every slice of the leading axis of every leaf of xs and stacks the results:
+        # semantically vmap(f)(xs) (the sequential schedule and batch_size only change how it is executed)
+        return VmapWrap(W, f, 0, 0, None)(xs)
+
     lax = NS(
         "jax.lax",
+        map=lax_map,
         stop_gradient=stop_gradient,
         pad=lax_pad,
         rev=lambda operand, dimensions: A.flip(operand, tuple(dimensions)),
